@@ -60,6 +60,10 @@ CLAIMED["C13"] = dict(engine="E1", technique="symbolic execution of the real fla
     text="Supplied csi/noise: y == h.x + n and shape preserved for 1-D, (B,L) and (B,C,H,W) inputs (all x, h, n). Generated gains: for every coherence time 1..L+1 and batch 1..2, y - noise equals H[b, floor(i/Tc)] . x with one independent complex draw per (batch item, block) and noise = draw x sqrt(P/2); E|h|^2 = 1 for Rayleigh / Rician(K in {0,2,100}) and LOS/scatter = K.",
     note="Moment lemma (E g = 0, E g^2 = 1, independence) and torch's generator are trusted; SNR-calibrated noise on the faded signal is a stretch item (non-linear); log-normal normalisation is outside the claim.",
     ref="DESIGN.md §4 C13")
+CLAIMED["C15"] = dict(engine="E1", technique="symbolic execution of modulator -> soft demodulator -> LLR consumer on symbolic bits (finite tables with torch-computed leaves), and of every LLR consumer on LLR = (1-2b) x magnitude; z3 decides 'exists bits: recovered bits != bits'; soft output as an uninterpreted sigmoid with sound axioms",
+    text="Every LLR-mode consumer maps (1-2b) x magnitude (magnitudes 1e-3..1e3 on a grid) back to b for all bit patterns; every catalogue soft demodulator followed by an LLR consumer reproduces all transmitted bit sequences of 2 symbols; LLRThresholder's soft output equals sigmoid(-LLR) and decreases with the LLR.",
+    note="Dead-zone / data-relative thresholders are exercised with |LLR| >= 1 (adaptive: both bit values present). Soft-input decoders as consumers are covered by the clean-LLR clauses of C10/C11. Known findings: FixedThresholder(LLR) and MinDistanceThresholder(LLR) polarity (pinned by existing tests).",
+    ref="DESIGN.md §4 C15")
 NOT_YET = {}
 
 PENDING_REASON = "check not built yet in this round (planned: see DESIGN.md §8); not claimed until its check exists"
